@@ -15,6 +15,8 @@ use std::time::{Duration, Instant};
 pub const VERIF_ROOT: &str = "/verif";
 /// stop sampling once this many failing runs have been collected
 pub const EARLY_STOP_FAILURES: usize = 60;
+/// the batch stops after this many watchdog kills
+pub const MAX_WATCHDOG_KILLS: u64 = 4;
 
 #[derive(Clone, Copy, Debug, PartialEq, Eq)]
 pub enum Tier {
@@ -545,6 +547,15 @@ pub fn run_batch(prop: &dyn Prop, opts: &DriverOpts, n: u64) -> Aggregate {
                 let _ = slots[w].child.kill();
                 slots[w].watchdog_killed = true;
                 agg.timeouts += 1;
+                if agg.timeouts >= MAX_WATCHDOG_KILLS && !stopping {
+                    // runs keep hanging: no point in waiting out the watchdog thousands of times
+                    stopping = true;
+                    agg.harness_errors.push(format!("{} runs made no progress for {:?} each: batch stopped early", agg.timeouts, opts.watchdog));
+                    for s in slots.iter_mut() {
+                        let _ = s.child.kill();
+                        s.done = true;
+                    }
+                }
                 // (a candidate only: believed, and reported as a violation, if the solo re-run confirms it)
                 agg.timeout_candidates.push(format!("run {} made no progress for {:?}", cur, opts.watchdog));
                 // Eof handling will attribute and restart
